@@ -1177,6 +1177,11 @@ impl<'ast> LoweringContext<'ast> {
                                 self.errors.push(LoweringError::Other("Found Option<T> for struct/enum T in a struct field, please use DiplomatOption<T>".into()));
                                 return Err(());
                             }
+                            // Only a top-level `Option<T>` return type is converted to the FFI-safe encoding by the macro
+                            if in_result_option && *stdlib == ast::StdlibOrDiplomat::Stdlib {
+                                self.errors.push(LoweringError::Other("Found Option<T> for struct/enum T nested in a Result or Option, please use DiplomatOption<T>".into()));
+                                return Err(());
+                            }
                             if !self.attr_validator.attrs_supported().option {
                                 self.errors.push(LoweringError::Other("Options of structs/enums/primitives not supported by this backend".into()));
                             }
@@ -1189,6 +1194,11 @@ impl<'ast> LoweringContext<'ast> {
                 ast::TypeName::Primitive(prim) => {
                     if in_struct && *stdlib == ast::StdlibOrDiplomat::Stdlib {
                         self.errors.push(LoweringError::Other("Found Option<T> for primitive T in a struct field, please use DiplomatOption<T>".into()));
+                        return Err(());
+                    }
+                    // Only a top-level `Option<T>` return type is converted to the FFI-safe encoding by the macro
+                    if in_result_option && *stdlib == ast::StdlibOrDiplomat::Stdlib {
+                        self.errors.push(LoweringError::Other("Found Option<T> for primitive T nested in a Result or Option, please use DiplomatOption<T>".into()));
                         return Err(());
                     }
                     if !self.attr_validator.attrs_supported().option {
